@@ -192,12 +192,18 @@ def h1_request(draw: Any, allow_head: bool = False, big: bool = True,
 @st.composite
 def h2_request(draw: Any, allow_head: bool = False, big: bool = True) -> Dict[str, Any]:
     body = draw(body_spec(big=big))
+    authority = draw(st.sampled_from(["example.com", "localhost:8080", "a.b"]))
+    headers = draw(header_list(h2=True))
+    if draw(st.integers(0, 4)) == 0:
+        # a literal host header next to :authority (same value: legal, what gateways that
+        # translate HTTP/1.1 send); the application must see one host entry, from :authority
+        headers.insert(draw(st.integers(0, len(headers))), ["host", authority])
     return {
         "method": draw(method(allow_head=allow_head, upper_only=True)),
         "path": draw(raw_path()),
         "query": draw(query()),
-        "authority": draw(st.sampled_from(["example.com", "localhost:8080", "a.b"])),
-        "headers": draw(header_list(h2=True)),
+        "authority": authority,
+        "headers": headers,
         "body_len": body["len"],
         "body_seed": body["seed"],
         "frames": draw(chunk_plan(body["len"], max_chunks=30)),
